@@ -2,21 +2,24 @@
 //
 // ops
 //
-//	call <lt> <ds> <args> <blk>          (model + implementation)
-//	     lt   ::= (lt (NAME ty)*)                      local type aliases handed to px.BuildFunction's LocalTypes
-//	     ds   ::= (ds disp*)
-//	     disp ::= (d fn|fn2 bop*)                      the builder calls of one dispatch, in order; fn = Function, fn2 = Function2
-//	     bop  ::= (req ty) | (opt ty) | (rep ty) | (reqrep ty) | (blk bt) | (optblk bt) | (ret ty)
-//	     ty   ::= int | (int LO HI) | str | (str MIN MAX) | (enum xHEX*) | (arr ty) | (var ty*) | (opt ty) | any | undef
-//	              | bool | (al NAME)                   LO/HI/MAX may be `d` (default = unbounded)
-//	     bt   ::= call | (c MIN MAX)                   Callable | Callable[MIN,MAX]
-//	     args ::= (args v*)      v ::= (i N) | (s xHEX) | (b t|f) | (u) | (a v*)
-//	     blk  ::= nb | (b MIN MAX)                     no block | a lambda taking MIN..MAX (MAX may be `d`) arguments of type Any
-//	   out: ran <i> | reported <CODE> | builder-rejected | fault
-//	@new <mode> xTYPE (args w*)          (implementation only: constructors are not modelled; labelled a test)
-//	     mode ::= t (type receiver, px.New) | s (string receiver) | f (through the `new` function)
-//	     w    ::= v | (f BITS) | (d) | (h (w w)*) | (t xHEX) | (bin xHEX) | (mk xTYPE w*)
-//	   out: value-in-type | value-outside-type | reported <CODE> | fault | bad-receiver
+//		call <lt> <ds> <args> <blk>          (model + implementation)
+//		     lt   ::= (lt (NAME ty)*)                      local type aliases handed to px.BuildFunction's LocalTypes
+//		     ds   ::= (ds disp*)
+//		     disp ::= (d fn|fn2 bop*)                      the builder calls of one dispatch, in order; fn = Function, fn2 = Function2
+//		     bop  ::= (req ty) | (opt ty) | (rep ty) | (reqrep ty) | (blk bt) | (optblk bt) | (ret ty)
+//		     ty   ::= int | (int LO HI) | str | (str MIN MAX) | (enum xHEX*) | (arr ty) | (var ty*) | (opt ty) | any | undef
+//		              | bool | (al NAME)                   LO/HI/MAX may be `d` (default = unbounded)
+//		     bt   ::= call | (c MIN MAX)                   Callable | Callable[MIN,MAX]
+//		     args ::= (args v*)      v ::= (i N) | (s xHEX) | (b t|f) | (u) | (a v*)
+//		     blk  ::= nb | (b MIN MAX)                     no block | a lambda taking MIN..MAX (MAX may be `d`) arguments of type Any
+//		   out: ran <i> | reported <CODE> | builder-rejected | fault
+//		@new <mode> xTYPE (args w*)          (implementation only: constructors are not modelled; labelled a test)
+//		     mode ::= t (type receiver, px.New) | s (string receiver) | f (through the `new` function)
+//		     w    ::= v | (f BITS) | (d) | (h (w w)*) | (t xHEX) | (bin xHEX) | (mk xTYPE w*)
+//		   out: value-in-type | value-outside-type | reported <CODE> | fault | bad-receiver
+//
+//	  @newc <spec> (args w*)               (implementation only) new on a constrained Struct/Hash/Tuple/Array receiver given as a
+//	       specification; the result is checked by px.IsInstance AND member by member against the spec (newc.go)
 //
 // Direct predicates (classes): not-first, outside-declaration-{arity,param,block}, match-but-reported,
 // nomatch-not-reported, wrong-error, args-altered, fault; new-outside-type, new-fault-<receiver kind>.
@@ -55,7 +58,8 @@ type ty struct {
 	tag    string // int str enum arr var opt any undef bool al
 	lo, hi *int64 // int / str bounds (nil = default)
 	kids   []*ty
-	strs   []string
+	strs   []string // enum values / struct member names
+	opts   []bool   // struct: the member's key is Optional[…]
 	name   string
 }
 
@@ -93,6 +97,29 @@ func tyOf(e sx.Sexp) *ty {
 			panic(fmt.Errorf("bad type %s", e))
 		}
 		return &ty{tag: e.Tag(), kids: []*ty{tyOf(a[0])}}
+	case "tuple":
+		t := &ty{tag: "tuple"}
+		for _, k := range a {
+			t.kids = append(t.kids, tyOf(k))
+		}
+		return t
+	case "hash":
+		if len(a) != 4 {
+			panic(fmt.Errorf("bad type %s", e))
+		}
+		lo := a[2].MustInt()
+		return &ty{tag: "hash", kids: []*ty{tyOf(a[0]), tyOf(a[1])}, lo: &lo, hi: bound(a[3])}
+	case "struct":
+		t := &ty{tag: "struct"}
+		for _, m := range a {
+			if len(m.List) != 3 || (m.List[1].Atom != "req" && m.List[1].Atom != "opt") {
+				panic(fmt.Errorf("bad member %s", m))
+			}
+			t.strs = append(t.strs, m.List[0].MustStr())
+			t.opts = append(t.opts, m.List[1].Atom == "opt")
+			t.kids = append(t.kids, tyOf(m.List[2]))
+		}
+		return t
 	case "arrn":
 		if len(a) != 3 {
 			panic(fmt.Errorf("bad type %s", e))
@@ -157,6 +184,24 @@ func (t *ty) src(env map[string]*ty, depth int) string {
 		return "Array[" + t.kids[0].src(env, depth) + "]"
 	case "opt":
 		return "Optional[" + t.kids[0].src(env, depth) + "]"
+	case "tuple":
+		ks := make([]string, len(t.kids))
+		for i, k := range t.kids {
+			ks[i] = k.src(env, depth)
+		}
+		return "Tuple[" + strings.Join(ks, ",") + "]"
+	case "hash":
+		return "Hash[" + t.kids[0].src(env, depth) + "," + t.kids[1].src(env, depth) + "," + bstr(t.lo) + "," + bstr(t.hi) + "]"
+	case "struct":
+		ms := make([]string, len(t.kids))
+		for i, k := range t.kids {
+			key := quote(t.strs[i])
+			if t.opts[i] {
+				key = "Optional[" + key + "]"
+			}
+			ms[i] = key + "=>" + k.src(env, depth)
+		}
+		return "Struct[{" + strings.Join(ms, ",") + "}]"
 	case "var":
 		ks := make([]string, len(t.kids))
 		for i, k := range t.kids {
@@ -464,7 +509,7 @@ func execCall(c px.Context, args []sx.Sexp) core.Result {
 	var vals []px.Value
 	for _, e := range args[2].Args() {
 		switch e.Tag() {
-		case "i", "s", "b", "u", "a", "d":
+		case "i", "s", "b", "u", "a", "d", "h":
 		default:
 			return core.Result{Out: "bad-op", Pred: "FAIL harness-bad-op value"}
 		}
@@ -771,7 +816,7 @@ func execNewM(c px.Context, args []sx.Sexp) core.Result {
 	var vals []px.Value
 	for _, e := range args[1].Args() {
 		switch e.Tag() {
-		case "i", "s", "b", "u", "a", "d":
+		case "i", "s", "b", "u", "a", "d", "h":
 		default:
 			return core.Result{Out: "bad-op", Pred: "FAIL harness-bad-op value"}
 		}
@@ -826,6 +871,12 @@ func alphaStr(v px.Value) string {
 		v.Each(func(e px.Value) { sb.WriteString(" " + alphaStr(e)) })
 		sb.WriteString(")")
 		return sb.String()
+	case *types.Hash:
+		var sb strings.Builder
+		sb.WriteString("(h")
+		v.EachPair(func(k, e px.Value) { sb.WriteString(" (" + alphaStr(k) + " " + alphaStr(e) + ")") })
+		sb.WriteString(")")
+		return sb.String()
 	}
 	return "(? " + v.PType().Name() + ")"
 }
@@ -858,6 +909,8 @@ func exec(c px.Context, op string, args []sx.Sexp) (res core.Result) {
 		return execNew(c, args)
 	case "newm":
 		return execNewM(c, args)
+	case "newc":
+		return execNewC(c, args)
 	}
 	return core.Result{Out: "bad-op", Pred: "FAIL harness-bad-op " + op}
 }
